@@ -2,8 +2,10 @@
 (* C18: the printf scanner of JqPrintf explored by TLC.                     *)
 (* Family 1: the environment hands the scanner ANY next byte of Alphabet   *)
 (*   (or the end of the format) while the format is shorter than MaxLen,   *)
-(*   so BFS visits every format of <= MaxLen bytes, for every argument     *)
-(*   list of <= MaxArgs values.                                            *)
+(*   and ANY next argument (or none) when a directive asks for one, so BFS *)
+(*   visits every format of <= MaxLen bytes with every argument list of    *)
+(*   <= MaxArgs values as far as the scanner looks at it (arguments it     *)
+(*   never examines are appended by the harness in every possible way).    *)
 (* Family 2: the format is one of F2 (a single directive, widths around    *)
 (*   the limits), fed to the same scanner byte by byte.                    *)
 (* Every state is checked against the laws below; every finished call      *)
@@ -23,7 +25,8 @@ Arg(kind, r, src) == [kind |-> kind, r |-> r, src |-> src]
 ArgVals == { Arg("str", <<"sa", "sb">>, "S"), Arg("str", <<"la", "lb", "lc", "ld", "le", "lf">>, "L"),
              Arg("num", <<"na">>, "N"), Arg("num", <<"ma", "mb", "mc", "md", "me", "mf">>, "M"),
              Arg("null", Chars("null"), "null"), Arg("arr", Chars("[1]"), "[1]") }
-ArgLists == SeqsUpTo(ArgVals, MaxArgs)
+\* candidates for the next argument: none once MaxArgs have been looked at
+NextArgs == IF Len(args) < MaxArgs THEN ArgVals \cup {NoArg} ELSE {NoArg}
 
 Widths == {"1", "2", "9", "10", "11", "4096", "65536", "65537", "4294967297", "18446744073709551617"}
 F2 == { pp[1] \o <<"%">> \o sg \o zr \o Chars(w) \o d \o pp[2] :
@@ -34,16 +37,16 @@ F2 == { pp[1] \o <<"%">> \o sg \o zr \o Chars(w) \o d \o pp[2] :
 VARIABLE rest    \* family 2: the part of the format not yet handed to the scanner
 vars == <<inp, args, mode, wneg, wzero, wval, buf, argi, out, writes, why, rest>>
 
-Init == /\ \E a \in ArgLists : PInit(a)
+Init == /\ PInit(<<>>)
         /\ rest \in (IF Family = 1 THEN {<<>>} ELSE F2)
 
 Next == IF Family = 1
         THEN \/ /\ Len(inp) < MaxLen
-                /\ \E c \in Alphabet : Step(c)
+                /\ \E c \in Alphabet : Step(c, NextArgs)
                 /\ UNCHANGED rest
              \/ End /\ UNCHANGED rest
         ELSE \/ /\ rest # <<>>
-                /\ Step(Head(rest))
+                /\ Step(Head(rest), NextArgs)
                 /\ rest' = Tail(rest)
              \/ rest = <<>> /\ End /\ UNCHANGED rest
 
@@ -92,9 +95,15 @@ FieldMin(fs) == IF fs = <<>> THEN 0
 
 BigWidth == \E i \in 1..Len(buf) : buf[i].w > 600
 
+\* the open points can only matter where a %v, a %% or a "-0" width occurs
+Sensitive(ps) == \E i \in 1..Len(ps) :
+                    ps[i].t = "fld" /\ (ps[i].d \in {"v", "%"} \/ (ps[i].neg /\ ps[i].zero))
+LawPolicies == IF mode = "Done" /\ Sensitive(out) THEN Policies ELSE {CodePolicy}
+
 Finished ==
   mode \in Terminal =>
-    \A pol \in Policies :
+    /\ ~Sensitive(out) => \A pol \in Policies : OutRuns(pol) = OutRuns(CodePolicy)
+    /\ \A pol \in LawPolicies :
       LET ref == RefPrintf(inp, args, pol) IN
       /\ ref.ok = (mode = "Done")
       /\ mode = "Done" =>
@@ -116,8 +125,9 @@ WriteOnlyAtEmit == [][(writes' # writes \/ out' # out) => (mode = "Literal" /\ m
 FailStep == (mode = "Fail") => (mode' \in {"Fail", "Failed"} /\ buf' = buf /\ argi' = argi /\ why' = why)
 FailAbsorbs == [][FailStep]_vars
 ArgsStep == /\ argi' \in {argi, argi + 1}
-            /\ args' = args
-            /\ (argi' = argi + 1) => (Len(buf') = Len(buf) + 1 /\ buf'[Len(buf')].r = args[argi'].r)
+            /\ IsPrefix(args, args') /\ Len(args') <= Len(args) + 1
+            /\ (argi' = argi + 1) => (Len(args') = argi' /\ Len(buf') = Len(buf) + 1 /\ buf'[Len(buf')].r = args'[argi'].r)
+            /\ (Len(args') = Len(args) + 1 /\ argi' = argi) => (mode' = "Fail" /\ why' = "kind")
 ArgsInOrder == [][ArgsStep]_vars
 ByteStep == (mode \in Scanning \cup {"Fail"}) => (Len(inp') = Len(inp) + 1 \/ (inp' = inp /\ mode' \in Terminal))
 EveryByteConsumed == [][ByteStep]_vars
@@ -131,5 +141,5 @@ Vec == mode \in Terminal =>
   Emit([fmt |-> inp, args |-> [i \in 1..Len(args) |-> args[i].src],
         cls |-> Class,
         outs |-> [k \in 1..8 |-> IF k > 1 /\ OutRuns(PolOf(k - 1)) = base THEN <<0>> ELSE OutRuns(PolOf(k - 1))],
-        surplus |-> (argi < Len(args)), why |-> why])
+        why |-> why])
 =============================================================================
